@@ -125,11 +125,17 @@ type opSpec struct {
 
 // Birthday: the wallet's birthday in seconds after the simulated chain's
 // genesis block (block h is 600*h seconds after it); 0 = long before it.
+//
+// RecoveryWindow: the wallet is (re)opened with that address recovery window
+// for every start-up: syncWithChain then runs (*Wallet).recovery - which
+// scans the backend's blocks above the synced-to block and moves synced-to
+// along - BEFORE its rollback loop.
 type c15Input struct {
-	WalletSeed int64    `json:"wallet_seed"`
-	Dispatch   bool     `json:"dispatch,omitempty"`
-	Birthday   int64    `json:"birthday,omitempty"`
-	Ops        []opSpec `json:"ops"`
+	WalletSeed     int64    `json:"wallet_seed"`
+	Dispatch       bool     `json:"dispatch,omitempty"`
+	Birthday       int64    `json:"birthday,omitempty"`
+	RecoveryWindow uint32   `json:"recovery_window,omitempty"`
+	Ops            []opSpec `json:"ops"`
 }
 
 // ---------------------------------------------------------------- output
@@ -152,6 +158,8 @@ type event struct {
 	Flag    bool       `json:"flag,omitempty"`
 	First   bool       `json:"first,omitempty"` // startup: no birthday block was stored when the backend connected
 	Loc     *metaJ     `json:"loc,omitempty"`   // startup with First: what locateBirthdayBlock returns on Backend
+	Recover bool       `json:"recover,omitempty"` // startup: the wallet has a recovery window
+	RTxs    []rtxJ     `json:"rtxs,omitempty"`    // startup with Recover: the wallet transactions in Backend's blocks, in chain order
 	Site    string     `json:"site"`
 	Obs     *obsJ      `json:"obs,omitempty"`
 }
@@ -159,6 +167,12 @@ type event struct {
 // Err: a start-up attempt did not reach the rescan request / the hook's
 // walletdb.Update returned an error.  ErrUnobserved: the notification went
 // through the dispatch goroutine, which only logs a handler's error.
+type rtxJ struct {
+	Tx int64 `json:"tx"`
+	CB bool  `json:"cb,omitempty"`
+	B  metaJ `json:"b"`
+}
+
 type obsJ struct {
 	Err           bool       `json:"err"`
 	ErrUnobserved bool       `json:"err_unobserved,omitempty"`
@@ -985,6 +999,21 @@ func (r *runner) setBirthday(height int) error {
 	return nil
 }
 
+// walletTxsAbove lists the wallet transactions in the backend's blocks above
+// the given height, in chain order (what recovery's block filter finds: every
+// harness transaction pays an address the wallet has issued).
+func (r *runner) walletTxsAbove(h int32) []rtxJ {
+	var out []rtxJ
+	for b := r.sc.At(h + 1); b != nil; b = r.sc.At(b.Height + 1) {
+		for _, tx := range b.Msg.Transactions {
+			if id, ok := r.txID[tx.TxHash()]; ok {
+				out = append(out, rtxJ{Tx: id, CB: id >= cbTxBase && id < fakeBase, B: *r.meta(b)})
+			}
+		}
+	}
+	return out
+}
+
 // applyOffline lets the backend's chain evolve while nobody is told.
 func (r *runner) applyOffline(evos []evoSpec) {
 	for _, e := range evos {
@@ -1027,6 +1056,7 @@ func (r *runner) applyOffline(evos []evoSpec) {
 // attempt: what the harness knows about the syncWithChain attempt in flight.
 type attempt struct {
 	backend [][4]int64
+	rtxs    []rtxJ
 	loc     *metaJ
 	gate    bool // it reached the rescan request (NotifyBlocks)
 	lower   bool // the backend's tip was below the wallet's synced-to height
@@ -1049,10 +1079,14 @@ func (r *runner) offline(op opSpec) error {
 		r.g.stop()
 		r.g = nil
 	}
-	if err := r.env.Reopen(0, nil); err != nil {
+	if err := r.env.Reopen(r.in.RecoveryWindow, nil); err != nil {
 		return err
 	}
 	r.push(event{K: "reopen", Site: "Reopen", Obs: r.observe(nil)})
+	recov := r.in.RecoveryWindow > 0
+	if recov {
+		r.tag("startup_with_recovery_window")
+	}
 
 	before := append([]*simchain.Block{}, r.notified...)
 	minedBefore := r.events[len(r.events)-1].Obs.Mined
@@ -1090,7 +1124,7 @@ attempts:
 			if cur != nil {
 				if !cur.gate {
 					o := r.observe(errors.New("the attempt returned an error before the rescan request"))
-					r.push(event{K: "startup", First: first, Loc: cur.loc, Backend: cur.backend,
+					r.push(event{K: "startup", First: first, Loc: cur.loc, Backend: cur.backend, Recover: recov, RTxs: cur.rtxs,
 						Site: "syncWithChain(failed attempt)", Obs: o})
 					r.tag("startup_attempt_failed")
 					if cur.lower {
@@ -1124,6 +1158,9 @@ attempts:
 				}
 				cur.loc = &metaJ{H: int64(loc.Height), Hash: r.intern(loc.Hash), T: loc.Timestamp.Unix()}
 			}
+			if recov {
+				cur.rtxs = r.walletTxsAbove(0) // the model picks the ones recovery scans
+			}
 			close(rel)
 		case rel := <-g.gate:
 			// the rollback transaction has committed (syncWithChain stops in NotifyBlocks)
@@ -1138,7 +1175,7 @@ attempts:
 				r.tag("startup_rollback")
 			}
 			o := r.observe(nil)
-			r.push(event{K: "startup", First: first, Loc: cur.loc, Backend: backend, Site: "syncWithChain", Obs: o})
+			r.push(event{K: "startup", First: first, Loc: cur.loc, Backend: backend, Recover: recov, RTxs: cur.rtxs, Site: "syncWithChain", Obs: o})
 			if !first {
 				exp := [][3]int64{}
 				for _, m := range minedBefore {
@@ -1149,6 +1186,41 @@ attempts:
 				okSynced := o.Synced.H == int64(common) && o.Synced.Hash == r.intern(before[common].Hash)
 				if tipOnChain {
 					okSynced = o.Synced.H == int64(len(before)-1) && o.Synced.Hash == r.intern(before[len(before)-1].Hash)
+				}
+				if recov {
+					// recovery has run as well and may have moved synced-to up the
+					// backend's chain and recorded transactions: state the clauses
+					// on what is there - synced-to is a block of the backend's
+					// chain, no remembered hash from lo up to it and no confirmed
+					// record names a block that is not
+					bad := ""
+					sb := r.sc.At(int32(o.Synced.H))
+					if sb == nil || r.intern(sb.Hash) != o.Synced.Hash {
+						bad = fmt.Sprintf("synced-to (%d, #%d) is not on the backend's chain", o.Synced.H, o.Synced.Hash)
+					}
+					for _, p := range o.Probes {
+						if b := r.sc.At(int32(p[0])); bad == "" && int32(p[0]) >= r.lo() && p[0] <= o.Synced.H && b != nil && p[1] != r.intern(b.Hash) {
+							bad = fmt.Sprintf("height %d: stored #%d, best chain #%d", p[0], p[1], r.intern(b.Hash))
+						}
+					}
+					for _, m := range o.Mined {
+						if b := r.sc.At(int32(m[1])); bad == "" && (b == nil || r.intern(b.Hash) != m[2]) {
+							bad = fmt.Sprintf("tx %d recorded in (%d, #%d)", m[0], m[1], m[2])
+						}
+					}
+					if bad != "" && !tipOnChain && r.sc.Tip().Height > int32(len(before)-1) {
+						// finding S16: recovery ran first and moved synced-to onto the
+						// backend's blocks above the wallet's old tip
+						r.violate("startup_recovery_skips_rollback", "syncWithChain(recovery)", fmt.Sprintf(
+							"recovery window %d, last common block %d, wallet was at %d, backend at %d: synced-to (%d, #%d); %s",
+							r.in.RecoveryWindow, common, len(before)-1, r.sc.Tip().Height, o.Synced.H, o.Synced.Hash, bad))
+						close(rel)
+						return nil
+					}
+					if bad != "" {
+						r.violate("startup_rollback_wrong_height", "syncWithChain", bad)
+					}
+					okSynced, exp = true, o.Mined
 				}
 				if !okSynced || !sameRecs(exp, o.Mined) {
 					r.violate("startup_rollback_wrong_height", "syncWithChain", fmt.Sprintf(
@@ -1378,6 +1450,9 @@ func genCase(seed int64, idx int, long bool) c15Input {
 	r := gen.New(seed, int64(1500+idx))
 	in := c15Input{WalletSeed: seed*100000 + int64(idx)}
 	in.Dispatch = r.Chance(1, 2)
+	if r.Chance(1, 5) {
+		in.RecoveryWindow = uint32(r.Range(3, 20))
+	}
 	pool := r.Range(3, 8)
 	height := 0
 	switch {
@@ -1528,6 +1603,18 @@ func witnessCases() []c15Input {
 		{WalletSeed: 1505, Birthday: 18000, Ops: []opSpec{
 			{Op: "offline", First: true, Evos: []evoSpec{{Blocks: []blockSpec{{Post: []int{1}}}, Bulk: 40}}},
 			{Op: "offline", Evos: []evoSpec{{Depth: 30, Bulk: 32}}},
+		}},
+		// S16: a wallet with a recovery window at height 5; offline, blocks 3..5
+		// are replaced and the chain grows to height 8
+		{WalletSeed: 1507, RecoveryWindow: 5, Ops: []opSpec{
+			{Op: "evolve", Evo: &evoSpec{Blocks: []blockSpec{{Post: []int{1}}, {}, {}, {Post: []int{2}}, {Post: []int{3}}}}},
+			{Op: "offline", Evos: []evoSpec{{Depth: 3, Blocks: []blockSpec{{}, {Post: []int{2}}, {}, {}, {Post: []int{4}}, {}}}}},
+		}},
+		// first synchronisation of a wallet with a recovery window, then an
+		// offline reorganisation that does not make the chain higher
+		{WalletSeed: 1508, RecoveryWindow: 5, Birthday: 3000, Ops: []opSpec{
+			{Op: "offline", First: true, Evos: []evoSpec{{Blocks: []blockSpec{{Post: []int{1}}, {}, {}, {Post: []int{2}}, {Post: []int{3}}, {}, {}, {Post: []int{4}}, {}, {}}}}},
+			{Op: "offline", Evos: []evoSpec{{Depth: 2, Blocks: []blockSpec{{Post: []int{4}}, {}}}}},
 		}},
 		// NotifyBlocks fails once after the first synchronisation's transaction
 		// has committed: waitForSync repeats the attempt with the same nil
